@@ -3,8 +3,10 @@ edit graph, recursively for nested replacements, mapping edits per key); TLC che
 satisfiable and side-sensitive on every pair of sequences in scope; the real diff.Diff runs
 on every enumerated pair and the TLA+ monitor decides empty-iff-equal, the order of the
 sides, acceptance of the script, mapping edits, and the parts named as changed."""
+import itertools
 import json
 import os
+import random
 import time
 
 import vlib
@@ -30,14 +32,39 @@ def pipeline(tier):
     if p.returncode != 0:
         raise Inconclusive("diff harness failed (exit %d):\n%s" % (p.returncode, p.stdout[-3000:]))
     lines = [json.loads(l) for l in open(opath)]
+    # the rebuild reason (function.go diffEnv): every subset of the nine environment parts differing
+    # by a changed value, and a seeded sample (thorough: all) of the vectors that also add / remove parts
+    rnd = random.Random(vlib.seed())
+    vecs = [list(v) for v in itertools.product(["same", "changed"], repeat=9)]
+    full = itertools.product(["same", "changed", "added", "removed"], repeat=9)
+    vecs += [list(v) for v in full if quick is False or rnd.random() < 0.012]
+    rcases = os.path.join(wd, "reason-cases.ndjson")
+    with open(rcases, "w") as f:
+        for i, v in enumerate(vecs):
+            f.write(json.dumps({"id": "r%d" % i, "classes": v, "flavor": rnd.randrange(8)}) + "\n")
+    rbin = vlib.build_test("", wd, name="dawn")
+    ropath = os.path.join(wd, "reason-traces.ndjson")
+    open(ropath, "w").close()
+    p = vlib.run_cmd([rbin, "-test.run", "^TestVerifReason$", "-test.timeout", "3000s"],
+                     env=dict(os.environ, VERIF_OUT=ropath, VERIF_CASES=rcases), cwd=wd)
+    if p.returncode != 0:
+        raise Inconclusive("reason harness failed (exit %d):\n%s" % (p.returncode, p.stdout[-3000:]))
+    rlines = [json.loads(l) for l in open(ropath)]
+    res["reason_cases"] = sum(len(l["events"]) for l in rlines)
+    if res["reason_cases"] != len(vecs):
+        raise Inconclusive("reason harness answered %d of %d cases" % (res["reason_cases"], len(vecs)))
+    lines += rlines
     res["calls"] = sum(len(l["events"]) for l in lines)
-    res["distinct_pairs"] = len({json.dumps([e["old"], e["new"]], sort_keys=True) for l in lines for e in l["events"]})
+    res["distinct_pairs"] = len({json.dumps([e["old"], e["new"]], sort_keys=True) for l in lines for e in l["events"] if e["ev"] == "Diff"})
     by_id = {l["id"]: l for l in lines}
     viols, n = vlib.eval_traces(SPEC, "DiffTraceP", "DiffTraceP.cfg", lines, shards=14, timeout=3000)
     out = []
     for v in viols:
         for x in v["viol"]:
             e = by_id[v["id"]]["events"][x["at"] - 1]
+            if e["ev"] == "Reason":
+                out.append({"prop": "C16", "what": x["what"], "id": v["id"], "reason": e})
+                continue
             out.append({"prop": "C16", "what": x["what"], "id": v["id"], "old": e["old"], "new": e["new"], "res": e["res"]})
     res["violations"] = out
     e = lines[len(lines) // 2]["events"][3]
@@ -51,6 +78,8 @@ def size(v):
 
 
 def sig_of(v):
+    if "reason" in v:
+        return "C16|%s|%d parts differ" % (v["what"], sum(1 for c in v["reason"]["classes"] if c != "same"))
     o, n = v["old"], v["new"]
     rel = "shorter" if size(o) < size(n) else ("equal" if size(o) == size(n) else "longer")
     return "C16|%s|%s,%s|old %s than new" % (v["what"], o.get("t"), n.get("t"), rel)
@@ -64,7 +93,7 @@ def check(prop, tier):
     viols = [dict(v, sig=sig_of(v)) for v in res["violations"]]
     cov = {"states": res["design"]["distinct"], "transitions": res["design"]["generated"],
            "traces_validated_against_impl": res["calls"], "samples": res["samples"],
-           "evaluations": res["calls"], "distinct_nontrivial": res["distinct_pairs"], "exhaustive": True,
+           "evaluations": res["calls"], "rebuild_reason_cases": res.get("reason_cases", 0), "distinct_nontrivial": res["distinct_pairs"], "exhaustive": True,
            "rule": "all pairs of strings, bytes, tuples and lists over {a,b,c} of length 0..3 (quick) / 0..4 (thorough), nested and mixed-kind variants, dicts over <=3 keys, seeded random longer sequences; distinct = distinct (old, new) pairs",
            "family_wall_s": round(res["wall_s"], 1)}
     assumptions = ["Starlark equality is structural equality on the value classes enumerated (no floats)"]
